@@ -430,6 +430,77 @@ theorem composed_wire (base : Core.Cfg) (i : Inputs) (react : React) (env : List
     obtain ⟨o, ho, rfl⟩ := List.mem_map.mp hz
     exact (List.mem_filter.mp ho).2
 
+/-! ### finding D11: the socket that had connected to the proxy, when the tunnel fails -/
+
+/-- **What becomes of the proxy socket when the tunnel fails after the TCP connect — both code shapes.**  With
+    a proxy chosen, a usable proxy URL, `_connect_sock` returning the socket of address `k`, and the tunnel
+    failing afterwards (no target host, CONNECT `sendall`, `recv`, reply, TLS wrap), the composed trace is
+    exactly: `Connecting`, the application's reaction, the connection-phase log with the address loop's
+    socket calls, then — in the repaired shape (`pclose`) — the close of socket `k`, then `ConnectFail`.  In the
+    pinned shape nothing closes that socket: neither a `close k` nor the session's `sockClose` occurs anywhere
+    in the trace, although `ConnectFail` is delivered (C09's "… and the socket is closed" fails; see
+    `C09Connect.composed_fail_closes_socket` / `proxy_socket_left_open_witness`). -/
+theorem tunnel_failure_closes_proxy_socket (base : Core.Cfg) (i : Inputs) (react : React) (env : List EnvStep)
+    (purl : Str) (hc : proxyChoice i.ws = some purl) (hf : TunnelFails i.ws (proxyEnv i) purl)
+    (hurl : ∃ u p, parseUrl purl = some u ∧ u.port = some p)
+    (k : Nat) (hk : (Connect.connectSock i.gai).1 = .sock k) (hns : ¬ StopsAtConnecting react) :
+    (∃ c0 c1, composed base i react env =
+        (Obs.ev .connecting :: c0).map .core ++ (connectLog i).flatMap (expand i) ++
+        (if i.pclose then [Item.sock (.close k)] else []) ++
+        (Obs.ev (.connectFail "connect-failed") :: c1).map .core ∧
+      (∀ o ∈ c0, isRes o = true) ∧ (∀ o ∈ c1, isRes o = true)) ∧
+    (i.pclose = false →
+      Item.sock (.close k) ∉ composed base i react env ∧ Item.core .sockClose ∉ composed base i react env) := by
+  have hnc : ¬ Connects i := by
+    rintro ⟨q, hq⟩
+    obtain ⟨_, hup, _⟩ := connectLog_up i purl q hc hq
+    exact not_up_of_fails _ _ _ hf hup
+  have hne := connectLog_nonempty i purl hc hurl
+  have hcl : closeItems i = if i.pclose then [Item.sock (.close k)] else [] := by
+    rw [closeItems_fail i hnc k hk, hne]; simp
+  have hsh := composed_shape base i react env
+  generalize composed base i react env = L at hsh
+  cases hsh with
+  | abandoned c0 n0 h => exact absurd h hns
+  | refused q c0 c1 _ _ _ hq _ => exact absurd ⟨q, hq⟩ hnc
+  | writeFailed q c0 c1 _ _ _ hq _ => exact absurd ⟨q, hq⟩ hnc
+  | connected q c0 X _ _ hq _ => exact absurd ⟨q, hq⟩ hnc
+  | failed c0 c1 n0 n1 _ _ =>
+    have hph : phaseItems i = (connectLog i).flatMap (expand i) ++ (if i.pclose then [Item.sock (.close k)] else []) := by
+      unfold phaseItems; rw [hcl]
+    refine ⟨⟨c0, c1, by rw [hph]; simp [List.append_assoc], n0, n1⟩, fun hp => ?_⟩
+    rw [hph, hp]
+    simp only [Bool.false_eq_true, ↓reduceIte, List.append_nil]
+    -- the only socket-module items are the address loop's calls, and the loop closes only sockets whose connect() failed
+    have hnoclose : Connect.Call.close k ∉ (Connect.connectSock i.gai).2 := by
+      intro hm
+      obtain ⟨addrs, hg, hok, _⟩ := ((C09.all_addresses_tried i.gai).2.1 k).mp hk
+      have := ((C09.all_addresses_tried i.gai).2.2 addrs hg).2.2.2 k |>.mp hm
+      rw [hok] at this
+      cases this.2
+    constructor
+    · intro hm
+      rcases List.mem_append.mp hm with h | h
+      · rcases List.mem_append.mp h with h | h
+        · obtain ⟨o, _, ho⟩ := List.mem_map.mp h; cases ho
+        · exact hnoclose (sock_mem_flatMap_expand i _ _ h)
+      · obtain ⟨o, _, ho⟩ := List.mem_map.mp h; cases ho
+    · intro hm
+      rcases List.mem_append.mp hm with h | h
+      · rcases List.mem_append.mp h with h | h
+        · obtain ⟨o, ho, he⟩ := List.mem_map.mp h
+          cases he
+          rcases List.mem_cons.mp ho with h' | h'
+          · cases h'
+          · have := n0 _ h'; cases this
+        · obtain ⟨y, _, hy⟩ := List.mem_flatMap.mp h
+          cases y <;> simp [expand] at hy
+      · obtain ⟨o, ho, he⟩ := List.mem_map.mp h
+        cases he
+        rcases List.mem_cons.mp ho with h' | h'
+        · cases h'
+        · have := n1 _ h'; cases this
+
 /-! ### Non-vacuity: concrete connections through the Proxy model's example configurations -/
 
 section Examples
@@ -466,6 +537,12 @@ example : sockLog (composed {} inOk (fun _ => []) [.wait 0 (some .eof)]) =
 /-- a 407: one `sendall` (CONNECT), `ConnectFail`, nothing of the core model on the wire -/
 example : (sends (composed {} in407 (fun _ => []) [])).length = 1 ∧
     evs (composed {} in407 (fun _ => []) []) = [.connecting, .connectFail "connect-failed"] := by decide +kernel
+/-- finding D11, both shapes: after the 407 the repaired `_connect_proxy` closes socket 1 (the one that had
+    connected) before `ConnectFail`; the pinned shape does not -/
+example : (composed {} in407 (fun _ => []) []).drop 9 =
+    [.sock (.close 1), .core (.ev (.connectFail "connect-failed"))] := by decide +kernel
+example : (composed {} { in407 with pclose := false } (fun _ => []) []).drop 9 =
+    [.core (.ev (.connectFail "connect-failed"))] := by decide +kernel
 /-- an application that stops at `Connecting`: `_connect()` is never called -/
 example : composed {} inOk (fun h => if h.length = 1 then [.abandon false] else []) [] =
     [.core (.ev .connecting)] := by decide +kernel
